@@ -54,7 +54,7 @@ ENUM_METHODS = {("PictureTypeCode", "is_disposable"): "is_disposable", ("Macrobl
 VLC_TABLES = {"MCBPC_I_TABLE": ("mcbpc_i_table", "BlockPatternEntry"), "MCBPC_P_TABLE": ("mcbpc_p_table", "BlockPatternEntry"),
               "MODB_TABLE": ("modb_table", ("tup", ("bool", "bool"))), "CBPY_TABLE_INTRA": ("cbpy_table_intra", ("opt", ("list", "bool"))),
               "MVD_TABLE": ("mvd_table", ("opt", "HalfPel")), "TCOEF_TABLE": ("tcoef_table", ("opt", "ShortTCoefficient"))}
-COQ_OF_TYPE = {"TCoefficient": "tcoef", "Block": "block", "ShortTCoefficient": "short_tcoef", "IntraDc": "Z",
+COQ_OF_TYPE = {"DecodedPicture": "decoded_picture", "TCoefficient": "tcoef", "Block": "block", "ShortTCoefficient": "short_tcoef", "IntraDc": "Z",
                "MacroblockType": "mbtype", "BlockPatternEntry": "bpe", "Macroblock": "macroblock", "HalfPel": "Z", "MotionVector": "(Z * Z)", "CodedBlockPattern": "cbp",
                "SourceFormat": "source_format", "PictureTypeCode": "ptype_code", "PixelAspectRatio": "par_t",
                "MotionVectorRange": "mvrange", "BPictureQuantizer": "Z"}
@@ -860,6 +860,8 @@ class PEmitter:
             t = resolve(t)
             if isinstance(t, str) and (t, name) in ENUM_METHODS and not args:
                 return k("(%s %s)" % (ENUM_METHODS[(t, name)], a), "bool", env)
+            if t == "PictureMap" and name == "get" and len(args) == 1:
+                return self.expr(args[0], env, lambda kk, tk, env: k("(pm_get %s %s)" % (a, kk), ("opt", "DecodedPicture"), env))
             if t == "DecodedPicture" and name == "as_header" and not args:
                 return k("(d_header %s)" % a, "Picture", env)
             if t == "DecodedPicture" and name == "format" and not args:
@@ -2032,6 +2034,27 @@ def gen_state(repo, status, write):
             raise Untranslatable("control flow with early exits in the commit phase")
         body += "Definition p_store_picture (a_self : state) (a_np : decoded_picture) : state :=\n  %s.\n" % em.finish(code)
         status[keys[0]] = "ok"
+        # the two look-ups of the state
+        for fn in ("get_last_picture", "get_reference_picture"):
+            key = "parser.p_" + fn
+            try:
+                prm, rt, fb = find_fn_generic(src.toks, fn)
+                em2 = PEmitter(defs, {}, {})
+                em2.pure = True
+                em2.fname = "p_" + fn
+                em2.rty = ("opt", "DecodedPicture")
+                env2 = {"self": ("a_self", "H263State"),
+                        "self.last_picture": ("(last_picture a_self)", ("opt", "u16")),
+                        "self.reference_picture": ("(reference_picture a_self)", ("opt", "u16")),
+                        "self.reference_states": ("(reference_states a_self)", "PictureMap"), "$reader": ("tt", "reader")}
+                code2 = em2.ret_block(fb, env2)
+                if em2.lifted:
+                    raise Untranslatable("join points in %s" % fn)
+                body += "\nDefinition p_%s (a_self : state) : res (option decoded_picture) :=\n  %s.\n" % (fn, em2.finish(code2))
+                status[key] = "ok"
+            except Untranslatable as ex:
+                body += "\n(* p_%s: untranslatable: %s *)\n" % (fn, str(ex).replace("*)", "* )"))
+                status[key] = "untranslatable: %s" % ex
     except Untranslatable as e:
         for k in keys:
             status.setdefault(k, "untranslatable: %s" % e)
